@@ -21,6 +21,14 @@ DT12_FORMS = ['202402291230', '202402292400', '202402291260', '202302291230', '2
 RD8_FORMS = ['20240101-20240229', '20240229-20230229', '20230229-20240229', '2024010120240229', '20240101--20240229',
              '20240101-2024022', '-20240229', '20240101-', '20240101-20240229-20240301', '240101-240229',
              '20240101 20240229']
+# date ranges whose halves have every length a date notation can have (6 YYMMDD, 8 CCYYMMDD, 12 CCYYMMDDHHMM) or are
+# empty, in all combinations: only 8-8 is a range (every half is a valid date of its own notation)
+_HALF = {0: ('', ''), 6: ('240101', '240229'), 8: ('20240101', '20240229'), 12: ('202401011230', '202402291230')}
+RD8_HALVES = [_HALF[a][0] + '-' + _HALF[b][1] for a in (6, 8, 12, 0) for b in (6, 8, 12, 0)]
+# the qualifier-selected formats just below, at and just above every length they admit:
+# D8 7/8/9, D6 5/6/7, DT 5/6/7/8/9/11/12/13, TM 3/4/5/6/7/8/9
+QUAL_BOUNDARY = ['2024022', '20240229', '202402291', '24022', '240229', '2402291', '20240229123', '202402291230', '2024022912300',
+                 '123', '1230', '12305', '123059', '1230591', '12305912', '123059123']
 TM_FORMS = ['0000', '2359', '2400', '2360', '1230', '123', '12305', '123059', '123060', '1230591', '12305912', '123059123',
             '12:30', '123A', '1230 ', '-123', '12.3']
 NUM_ODD = ['-', '.', '-.', '--1', '1-', '-1-', '+1', '1e5', '1E5', '1,5', ' 1', '1 ', '1.', '.5', '-.5', '1.5', '-1.5', '1.2.3',
@@ -154,14 +162,16 @@ def catalogue(d, members, tier, rnd):
     if t == 'TM':
         vals.extend(TM_FORMS)
     if t == 'RD8':
-        vals.extend(RD8_FORMS + D8_FORMS[:4])
+        vals.extend(RD8_FORMS + D8_FORMS[:4] + RD8_HALVES)
     return [v for v in uniq(vals) if v != '']
 
 
 def qualified_values(quick):
     """values for an element whose date/time format is selected by a qualifier (DTP03, element 1251)"""
     v = D8_FORMS + RD8_FORMS + TM_FORMS[:8] + DT12_FORMS[:3] + D6_FORMS[:3] + ['A', '2024022\n']
-    return uniq(v if not quick else D8_FORMS[:8] + RD8_FORMS[:6] + TM_FORMS[:5] + DT12_FORMS[:2] + D6_FORMS[:2] + ['A'])
+    q = D8_FORMS[:8] + RD8_FORMS[:6] + TM_FORMS[:5] + DT12_FORMS[:2] + D6_FORMS[:2] + ['A']
+    # both tiers: ranges with halves of every date length / empty halves, and every format at its boundary lengths
+    return uniq((q if quick else v) + RD8_HALVES + QUAL_BOUNDARY)
 
 
 TYPE_LISTS = [['D8'], ['RD8'], ['TM'], ['DT'], ['D6'], ['D8', 'RD8'], ['RD8', 'D8'], ['D8', 'DT']]
